@@ -85,6 +85,7 @@ type world struct {
 	free    []string
 	anyDead bool
 	ghosts  []*mclient
+	viaSender *mclient
 	removedViaRequest map[string]bool
 }
 
@@ -378,7 +379,24 @@ func (w *world) afterOp(op Op) *core.Violation {
 	return core.V("lock-held|SendEvent|after-failed-write|"+how, "after %q the mutex of client record(s) %v (%s) is still locked although no write is in progress: SendEvent returned from a failed write without unlocking; every later SendEvent/EventBroadcast that visits this record blocks forever", op.K, ids, how)
 }
 
+// step performs one operation.  An operation that went through an operator's websocket
+// is followed by a one-shot chat of the same operator: its echo proves that the
+// operator's handler has finished dispatching the request (ListenerStart, for one,
+// announces the listener before it stores it) and is back in its read loop.
 func (w *world) step(op Op) *core.Violation {
+	w.viaSender = nil
+	if v := w.step1(op); v != nil {
+		return v
+	}
+	if m := w.viaSender; m != nil {
+		b := w.token("b")
+		m.c.SendJSON(wsx.BarrierPkg(m.user, b))
+		return w.expectAll("!chat/"+m.user+"/"+b, nil, "live-oneshot")
+	}
+	return nil
+}
+
+func (w *world) step1(op Op) *core.Violation {
 	ts := w.fx.TS
 	T := packager.Type
 	alive := w.alive()
@@ -387,6 +405,7 @@ func (w *world) step(op Op) *core.Violation {
 	if via {
 		sender = alive[op.I%len(alive)]
 	}
+	setVia := func() { w.viaSender = sender }
 	switch op.K {
 	case "connect":
 		if len(w.clients) >= maxClients {
@@ -432,6 +451,7 @@ func (w *world) step(op Op) *core.Violation {
 			return nil
 		}
 		tk := w.token("m")
+		setVia()
 		sender.c.SendJSON(wsx.ChatPkg(sender.user, tk))
 		p := "chat/" + sender.user + "/" + tk
 		w.retained = append(w.retained, ent{p: p})
@@ -446,6 +466,7 @@ func (w *world) step(op Op) *core.Violation {
 			if ext {
 				info = map[string]any{"Name": name, "Protocol": "External", "Endpoint": "ep-" + name}
 			}
+			setVia()
 			sender.c.SendJSON(wsx.Pkg(T.Listener.Type, sender.user, T.Listener.Add, info))
 			w.removedViaRequest[name] = true // (remembers how it was added)
 		} else {
@@ -472,6 +493,7 @@ func (w *world) step(op Op) *core.Violation {
 		name := w.lsn[k]
 		w.lsn = append(w.lsn[:k], w.lsn[k+1:]...)
 		if via {
+			setVia()
 			sender.c.SendJSON(wsx.Pkg(T.Listener.Type, sender.user, T.Listener.Remove, map[string]any{"Name": name}))
 			w.retained = append(w.retained, ent{p: "lrem/" + sender.user + "/" + name}) // the request itself is recorded
 		} else {
@@ -532,6 +554,7 @@ func (w *world) step(op Op) *core.Violation {
 			return nil
 		}
 		if via {
+			setVia()
 			sender.c.SendJSON(wsx.Pkg(T.Session.Type, sender.user, T.Session.MarkAsDead, map[string]any{"AgentID": id, "Marked": "Dead"}))
 			w.retained = append(w.retained, ent{p: "mark/" + sender.user + "/" + id + "/Dead"})
 		} else {
